@@ -346,8 +346,15 @@ func (c12Stream) Generate(rng *rand.Rand, n int, thorough bool) []Case {
 				cs = append(cs, Case{Line: "c12 kind=acceptRace", Kind: "acceptRace"})
 			}
 		default:
-			cs = append(cs, Case{Line: fmt.Sprintf("c12 kind=quiescent conns=%d inflight=%s slowclose=%d hangup=%d tls=%d rst=%d", 1+rng.Intn(8),
-				[]string{"none", "blocked", "slow", "slow", "long"}[rng.Intn(5)], rng.Intn(2), rng.Intn(2), rng.Intn(2), rng.Intn(2)), Kind: "quiescent"})
+			infl := []string{"none", "blocked", "slow", "slow", "long"}[rng.Intn(5)]
+			// (tl: the searches carry a time limit of one second, which has expired when Stop is called; the handlers are busy
+			// for 1.8 s - the limit is the handler's business, Stop waits for the handler all the same)
+			tl := 0
+			if infl == "long" && rng.Intn(2) == 0 {
+				tl = 1
+			}
+			cs = append(cs, Case{Line: fmt.Sprintf("c12 kind=quiescent conns=%d inflight=%s slowclose=%d hangup=%d tls=%d rst=%d tl=%d", 1+rng.Intn(8),
+				infl, rng.Intn(2), rng.Intn(2), rng.Intn(2), rng.Intn(2), tl), Kind: "quiescent"})
 		}
 	}
 	return cs
@@ -578,7 +585,12 @@ func (c12Stream) Impl(c Case) string {
 			leave(cl)
 			continue
 		}
-		_ = cl.send(append(opFrame("bind", 1), opFrame("search", 2)...))
+		search2 := opFrame("search", 2)
+		if p["tl"] == "1" {
+			nd, _ := Req{Kind: "search", ID: 2, DN: "cn=x,dc=example,dc=org", Scope: 2, Filter: "(cn=x)", Time: 1}.Node()
+			search2 = nd.Ser()
+		}
+		_ = cl.send(append(opFrame("bind", 1), search2...))
 		if _, err := cl.readFrame(5 * time.Second); err != nil {
 			return "harness-error bind response: " + err.Error()
 		}
@@ -661,6 +673,9 @@ func (c12Stream) Impl(c Case) string {
 		return verdict + "\t" + traceString(sut.tr.Snapshot(), "conn.", "loop.", "req.", "run.", "stop.")
 	}
 	// quiescent: clients leave right after Stop is called; blocked handlers are released a little later
+	if p["tl"] == "1" && p["hangup"] != "1" {
+		time.Sleep(1200 * time.Millisecond)
+	}
 	stopDone := make(chan bool, 1)
 	go func() { stopDone <- sut.stop(8 * time.Second) }()
 	sut.tr.Wait("stop.cancelled", -1, -1, 2*time.Second)
